@@ -64,6 +64,12 @@ Definition sp_join (ts : list bytes) : bytes := unwords [nb 32] ts.
      it, or -- when parsing at a cursor -- a prefix), with the blocker strength written; an accepted
      dependency string, read back as PMS text, is token for token the input, and String() is
      that text *)
+(* the version operator of a result is the one the text was written with: when a version needs an
+   operator (versionNeedsRelop), a text without one is never accepted as if it had "=" *)
+Definition relop_written (input : bytes) : N := let '(_, _, relop, _) := take_prefix input in relop.
+Definition op_written (vnr : bool) (input : bytes) (p : parsed) : bool :=
+  negb vnr || negb (relop_written input =? R_none) || (p_verrelop p =? R_none).
+
 Definition spec (c : case) (o : obs) : bool :=
   match c, o with
   | CAtom ast input vnr asdep _, OAtom r =>
@@ -75,6 +81,7 @@ Definition spec (c : case) (o : obs) : bool :=
       && prefixb (p_atom p) input && (asdep || beq (p_atom p) input)
       && Bool.eqb (p_blocker p) (is 33 (peek input))
       && Bool.eqb (p_hardblock p) (is 33 (peek input) && is 33 (peek1 input))
+      && op_written vnr input p
     end
   | CDep ast input _, ODep r strs =>
     match r with
